@@ -15,12 +15,21 @@
   * recursion: `skip_item` keeps its nesting levels in a heap vector; the model's loop is
     iterative and a fuel linear in the input suffices (`C07.skip_exact_linear`);
   * renderers: every index `get_readable_dname` reads is ≤ size (the terminator) and every
-    index it writes is < size (`dname_in_bounds`), for EVERY byte string.
+    index it writes is < size (`dname_in_bounds`), for EVERY byte string;
+  * termination in linear time, for EVERY byte string (not only well-formed ones): the loops of the reader – `read_array`,
+    the member loop of every struct reader, the chunk loop of `read_string`, the level loop of `skip_item` – are modelled
+    with a fuel argument, and on ANY input a fuel linear in its length is never exhausted (`value_reader_fuel_never_binds`,
+    `skip_fuel_never_binds`, `file_reader_fuel_never_binds`, `block_reader_fuel_never_binds`): above `2·|input| + 2` the result
+    does not depend on the fuel.  Every loop iteration consumes a byte of input or closes a nesting level that a consumed
+    byte opened, so the iterations of all modelled loops together are bounded by a linear function of the input length, and
+    every exception the model reports on a hostile input is a genuine one, not an artefact of the fuel.
 -/
 import CdnsVerif.Model.Render
 import CdnsVerif.Props.C05
 import CdnsVerif.Props.C07
 import CdnsVerif.Props.C17
+import CdnsVerif.Proofs.Fuel
+import CdnsVerif.Model.File
 
 namespace CdnsVerif.Props.C03
 open CdnsVerif.Model.Render CdnsVerif.Spec.Cbor
@@ -93,5 +102,68 @@ theorem dname_in_bounds (name : Bytes) : ∀ a ∈ dnameAccesses name, InBounds 
 /-- the witness of the repaired defect: a 20-byte name whose first label claims 20 bytes -/
 example : ∀ a ∈ dnameAccesses (20 :: List.replicate 19 65), InBounds (20 :: List.replicate 19 65) a :=
   dname_in_bounds _
+
+/-! ### the reader's loops end after linearly many iterations, on every input -/
+
+open CdnsVerif.Model CdnsVerif.Model.Decoder CdnsVerif.Model.Schema CdnsVerif.Proofs.Fuel
+
+/-- **Any value of any schema, any bytes.**  Reading a value of kind `k` (any struct of the preamble or block tree, arrays, strings,
+    integers) from an ARBITRARY byte string gives the same outcome – value and rest, or the same exception – for every fuel above
+    `2·|bs| + 2`: none of the loops involved can run more often than that on this input. -/
+theorem value_reader_fuel_never_binds (k : Kind) (bs : Bytes) (f1 f2 : Nat) (h1 : 2 * bs.length + 2 ≤ f1) (h2 : 2 * bs.length + 2 ≤ f2) :
+    (readVal f1 k).run bs = (readVal f2 k).run bs :=
+  (adequate_all bs.length).1 k f1 f2 bs (Nat.le_refl _) h1 h2
+
+/-- **`skip_item()` on any bytes**: at most `3·|bs| + 2` iterations of its level loop (a head byte opens at most two levels). -/
+theorem skip_fuel_never_binds (bs : Bytes) (f1 f2 : Nat) (h1 : 3 * bs.length + 1 < f1) (h2 : 3 * bs.length + 1 < f2) :
+    (skipItem f1).run bs = (skipItem f2).run bs := skipItem_adequate f1 f2 bs h1 h2
+
+open CdnsVerif.Model.File CdnsVerif.Model.Structs in
+/-- **A whole file, any bytes**: header, type string, preamble and all blocks. -/
+theorem file_reader_fuel_never_binds (bs : Bytes) (f1 f2 : Nat) (h1 : 2 * bs.length + 2 ≤ f1) (h2 : 2 * bs.length + 2 ≤ f2) :
+    (readFile f1).run bs = (readFile f2).run bs := by
+  unfold readFile
+  apply run_bind_congr
+  rintro ⟨len, indef⟩ r1 hs
+  have hr1 := run_le _ _ _ _ hs
+  simp only
+  split
+  · rfl
+  · apply run_bind_congr2
+    · exact readStr_adequate _ f1 f2 r1 (by omega) (by omega)
+    · intro t r2 ht
+      have hr2 := run_le _ _ _ _ ht
+      split
+      · rfl
+      · apply run_bind_congr2
+        · exact value_reader_fuel_never_binds _ r2 f1 f2 (by omega) (by omega)
+        · intro pv r3 hp
+          have hr3 := run_le _ _ _ _ hp
+          exact run_bind_congr_left _ _ _ _ (value_reader_fuel_never_binds _ r3 f1 f2 (by omega) (by omega))
+
+open CdnsVerif.Model.File CdnsVerif.Model.Structs in
+/-- **`CdnsReader::read_block()`, any bytes, any reader state.** -/
+theorem block_reader_fuel_never_binds (st : RdSt) (bs : Bytes) (f1 f2 : Nat) (h1 : 2 * bs.length + 2 ≤ f1) (h2 : 2 * bs.length + 2 ≤ f2) :
+    (readBlock f1 st).run bs = (readBlock f2 st).run bs := by
+  unfold readBlock
+  split
+  · apply run_bind_congr
+    intro t r0 hp
+    have hr0 := run_le _ _ _ _ hp
+    split
+    · rfl
+    · exact run_bind_congr_left _ _ _ _ (value_reader_fuel_never_binds _ r0 f1 f2 (by omega) (by omega))
+  · split
+    · rfl
+    · exact run_bind_congr_left _ _ _ _ (value_reader_fuel_never_binds _ bs f1 f2 h1 h2)
+
+/-- not vacuous, and the bound is about hostile input too: a definite-length array announcing 2^64−1 elements and an
+    indefinite-length one nested 3 deep that never closes both end with the end-of-input exception at the bound (not with a
+    fuel artefact, which would be `Err.decoder`) -/
+def endsWithEnd {α : Type} : Except Err α → Bool
+  | .error .end_ => true
+  | _ => false
+example : endsWithEnd ((readVal (2 * 10 + 2) (.arr (.uint 8))).run [0x9b, 255, 255, 255, 255, 255, 255, 255, 255, 1]) = true := by decide
+example : endsWithEnd ((readVal (2 * 4 + 2) (.arr (.arr (.arr (.uint 8))))).run [0x9f, 0x9f, 0x9f, 7]) = true := by decide
 
 end CdnsVerif.Props.C03
